@@ -422,6 +422,9 @@ func main() {
 					}
 				}
 			}
+			if tbl == "" || len(items) == 0 {
+				miss("roman.%s: expected `if value == V && f&FLAG != 0 { return \"…\" }` statements followed by `return table[value]`", fn)
+			}
 			w("def roman_%s_table : String := %q", fn, tbl)
 		}
 		w("def roman_%s_long : List (Nat × Nat × List Nat) := [%s]", fn, strings.Join(items, ", "))
@@ -440,6 +443,9 @@ func main() {
 			})
 		} else {
 			miss("roman.toLower not found")
+		}
+		if len(items) == 0 {
+			miss("roman.toLower: no `case 'X': buf[i] = 'x'` clauses found")
 		}
 		w("def roman_toLower : List (Nat × Nat) := [%s]", strings.Join(items, ", "))
 	}
@@ -471,6 +477,9 @@ func main() {
 			})
 		} else {
 			miss("%s.formatByVerb not found", p.name)
+		}
+		if len(items) == 0 {
+			miss("%s.formatByVerb: no `case 'x': return …` clauses found", p.name)
 		}
 		w("/-- verb ↦ flags; `none` = the package's DefaultFormat variable -/")
 		w("def %s_verbs : List (Nat × Option Nat) := [%s]", prefix, strings.Join(items, ", "))
@@ -707,6 +716,9 @@ func main() {
 				final = u.intOf(st.Results[0], "Variant")
 			}
 		}
+		if len(items) == 0 || final == "" {
+			miss("uu.Variant: expected `if i.Lower&MASK == 0 { return K }` statements and a final return")
+		}
 		w("/-- `(mask, result)`: the first entry whose `Lower &&& mask = 0` gives the result, else the final value -/")
 		w("def uu_variantTests : List (BitVec 64 × Nat) := [%s]", strings.Join(items, ", "))
 		w("def uu_variantFinal : Nat := %s", orZero(final))
@@ -777,6 +789,9 @@ func main() {
 			}
 			return true
 		})
+		if len(hy) == 0 {
+			miss("uu.DefaultParser: no `input[offset+K] != '-'` tests found")
+		}
 		w("def uu_hyphens : List Nat := [%s]", strings.Join(hy, ", "))
 	} else {
 		miss("uu.DefaultParser not found")
